@@ -252,3 +252,11 @@ impl Session {
         self.base_settings.add_root_certificate(cert);
     }
 }
+
+#[cfg(feature = "verif-hooks")]
+impl Session {
+    /// Snapshot of the settings carried by this `Session` (verification hook).
+    pub fn verif_settings(&self) -> crate::verif_hooks::SettingsSnapshot {
+        crate::verif_hooks::SettingsSnapshot::of(&self.base_settings)
+    }
+}
